@@ -5,6 +5,7 @@
 #include <string.h>
 #include <stdlib.h>
 #include <time.h>
+#include <sys/stat.h>
 
 #ifdef OPT_ON
 
@@ -307,6 +308,14 @@ u8_t *get_v_opt(int argc, char *argv[])
                 delete res;
                 return NULL;
             }
+        }
+        // the tag is computed by reading the written output back: that needs a regular file
+        struct stat ost;
+        if (fstat(fileno(res->out), &ost) != 0 || !S_ISREG(ost.st_mode))
+        {
+            strlog("Error :", "Output must be a regular file");
+            delete res;
+            return NULL;
         }
         getRandomBuffer(res->r_buf);
         printkey(res->key);
